@@ -616,14 +616,28 @@ def build(repo, sidecar_path, extra_spec=None, reach=False):
             elif mode == 'stmt-at':
                 # one block-like statement (if / match / for / while / loop), from its keyword at the
                 # anchor to the end of its block including `else` chains
-                bo_ = body_open(raw, a0, stop_at_semicolon=False)
-                se = match_close(raw, bo_)
-                while True:
-                    me = re.match(r'\s*else\b', raw[se:])
-                    if not me:
-                        break
-                    bo_ = body_open(raw, se + me.end(), stop_at_semicolon=False)
+                if re.match(r'(if|match|while|for|loop|unsafe)\b', raw[a0:]):
+                    bo_ = body_open(raw, a0, stop_at_semicolon=False)
                     se = match_close(raw, bo_)
+                    while True:
+                        me = re.match(r'\s*else\b', raw[se:])
+                        if not me:
+                            break
+                        bo_ = body_open(raw, se + me.end(), stop_at_semicolon=False)
+                        se = match_close(raw, bo_)
+                else:
+                    # an expression statement: up to its `;` at bracket depth 0
+                    depth_, se = 0, None
+                    for kind_, ta_, tb_ in tokens(raw, a0):
+                        if kind_ == 'open':
+                            depth_ += 1
+                        elif kind_ == 'close':
+                            depth_ -= 1
+                        elif kind_ == 'punct' and raw[ta_] == ';' and depth_ == 0:
+                            se = tb_
+                            break
+                    if se is None:
+                        raise ExtractionLost('%s: statement at `%s` has no end' % (where, anchor))
                 inner = '\n' + raw[a0:se] + '\n'
                 f0 = a0
             else:
